@@ -3,7 +3,7 @@
 From Coq Require Import ZArith List Bool NArith.
 From Coq.Strings Require Import Byte String.
 From EsVerif.Common Require Import Base Bytes.
-From EsVerif.C01 Require Import Framing Model.
+From EsVerif.C01 Require Import Framing Model Layout.
 Import ListNotations.
 Open Scope Z_scope.
 Open Scope list_scope.
@@ -96,3 +96,9 @@ Definition rows_fit (dt : dtype) (rows : list (list byte)) : Prop :=
   Forall (fun r => Z.of_nat (length r) = rowsize dt) rows.
 Definition rows_fit_b (dt : dtype) (rows : list (list byte)) : bool :=
   forallb (fun r => Z.of_nat (length r) =? rowsize dt) rows.
+
+(* ---------------------------------------------------------------- class of the repaired write defect *)
+(* fixes/C01/0002: the failing inputs of the unrepaired writer are arrays that are not
+   C-contiguous (Properties.C01_unrepaired_write_contiguous / _refuted); the harness's
+   classify() returns "C01.kf_noncontiguous_write" for exactly these *)
+Definition kf_noncontiguous_write (v : ndview) : bool := negb (is_c_contiguous v).
